@@ -9,6 +9,7 @@ package main
 import (
 	"bytes"
 	"context"
+	"encoding/json"
 	"errors"
 	"fmt"
 	"math/big"
@@ -16,6 +17,7 @@ import (
 	"sort"
 	"strings"
 
+	"github.com/artela-network/artela-evm/tracers"
 	"github.com/artela-network/artela-evm/vm"
 	"github.com/artela-network/aspect-core/djpm/run"
 	atypes "github.com/artela-network/aspect-core/types"
@@ -161,6 +163,11 @@ type attempt struct {
 	input  []byte
 	facts  map[string]string
 	gas    uint64
+	// what the issuing frame saw of this attempt in its own gas: gas before the CALL/CREATE step, the step's cost, and - once the
+	// frame's next step is known - the frame's gas after it minus (gas before - cost)
+	stepGas, stepCost uint64
+	netKnown          bool
+	netGas            int64
 }
 
 type frec struct {
@@ -175,6 +182,7 @@ type frec struct {
 	pendEffect  *uint64
 	pendJournal []string
 	pendCall    *attempt
+	lastAttempt *attempt // the attempt made by this frame's previous step, if that step was a CALL-family or CREATE instruction
 	jpMark      int
 	effects     []uint64 // program effects performed by this frame itself
 	failedErr   error
@@ -571,7 +579,12 @@ func (l *frameLogger) CaptureState(pc uint64, op vm.OpCode, gas, cost uint64, sc
 	if err != nil {
 		// logged from the error path without a preceding CaptureState: the instruction faulted before executing
 		fr.fault, fr.faultGas = err, scope.Contract.Gas
+		fr.lastAttempt = nil
 		return
+	}
+	if a := fr.lastAttempt; a != nil {
+		a.netKnown, a.netGas = true, int64(gas)-int64(a.stepGas-a.stepCost)
+		fr.lastAttempt = nil
 	}
 	st := scope.Stack.Data()
 	arg := func(i int) *uint256.Int { // i-th from the top
@@ -608,7 +621,8 @@ func (l *frameLogger) CaptureState(pc uint64, op vm.OpCode, gas, cost uint64, sc
 			a.input = []byte{}
 		}
 		l.factsFor(a)
-		fr.pendCall = a
+		a.stepGas, a.stepCost = gas, cost
+		fr.pendCall, fr.lastAttempt = a, a
 	case op == vm.DELEGATECALL || op == vm.STATICCALL:
 		a := &attempt{kind: kindOfOp(op), caller: self, to: common.Address(arg(1).Bytes20()), value: new(big.Int),
 			input: memSlice(mem, arg(2).Uint64(), arg(3).Uint64())}
@@ -616,7 +630,8 @@ func (l *frameLogger) CaptureState(pc uint64, op vm.OpCode, gas, cost uint64, sc
 			a.input = []byte{}
 		}
 		l.factsFor(a)
-		fr.pendCall = a
+		a.stepGas, a.stepCost = gas, cost
+		fr.pendCall, fr.lastAttempt = a, a
 	case op == vm.CREATE || op == vm.CREATE2:
 		init := memSlice(mem, arg(1).Uint64(), arg(2).Uint64())
 		if init == nil {
@@ -629,7 +644,8 @@ func (l *frameLogger) CaptureState(pc uint64, op vm.OpCode, gas, cost uint64, sc
 			a.to = crypto.CreateAddress2(self, arg(3).Bytes32(), crypto.Keccak256(init))
 		}
 		l.factsFor(a)
-		fr.pendCall = a
+		a.stepGas, a.stepCost = gas, cost
+		fr.pendCall, fr.lastAttempt = a, a
 	}
 }
 
@@ -863,6 +879,57 @@ func (g *fgen) compileBody(body []fact, end byte, endLen int, runtime []byte, is
 	return a.Bytes()
 }
 
+// ---------------------------------------------------------------- the real call tracers on real executions
+
+// teeLogger hands every debug callback to the frame logger and to a real call tracer (tracers/native), and every Aspect callback
+// — emitted by aspect-core's join-point manager around the mock Aspects — to that tracer; each callback is also written down as
+// an `E` line, so that the Lean call-tracer machine runs on the very stream the real tracer saw.
+type teeLogger struct {
+	lg    *frameLogger
+	tr    tracers.Tracer
+	al    atypes.AspectLogger
+	lines []string
+}
+
+func (t *teeLogger) CaptureTxStart(g uint64) { t.lg.CaptureTxStart(g); t.tr.CaptureTxStart(g) }
+func (t *teeLogger) CaptureTxEnd(g uint64)   { t.lg.CaptureTxEnd(g); t.tr.CaptureTxEnd(g) }
+func (t *teeLogger) CaptureStart(env *vm.EVM, from, to common.Address, create bool, input []byte, gas uint64, value *big.Int) {
+	t.lines = append(t.lines, fmt.Sprintf("E start %s %s %s %s %s %s", hexAddr(from), hexAddr(to), b01(create), hexBytes(input), hexU64(gas), optBig(value)))
+	t.tr.CaptureStart(env, from, to, create, input, gas, value)
+	t.lg.CaptureStart(env, from, to, create, input, gas, value)
+}
+func (t *teeLogger) CaptureEnd(output []byte, gasUsed uint64, err error) {
+	t.lines = append(t.lines, fmt.Sprintf("E end %s %s %s", hexBytes(output), hexU64(gasUsed), terr(err)))
+	t.tr.CaptureEnd(output, gasUsed, err)
+	t.lg.CaptureEnd(output, gasUsed, err)
+}
+func (t *teeLogger) CaptureEnter(typ vm.OpCode, from, to common.Address, input []byte, gas uint64, value *big.Int) {
+	t.lines = append(t.lines, fmt.Sprintf("E enter %s %s %s %s %s %s", typ.String(), hexAddr(from), hexAddr(to), hexBytes(input), hexU64(gas), optBig(value)))
+	t.tr.CaptureEnter(typ, from, to, input, gas, value)
+	t.lg.CaptureEnter(typ, from, to, input, gas, value)
+}
+func (t *teeLogger) CaptureExit(output []byte, gasUsed uint64, err error) {
+	t.lines = append(t.lines, fmt.Sprintf("E exit %s %s %s", hexBytes(output), hexU64(gasUsed), terr(err)))
+	t.tr.CaptureExit(output, gasUsed, err)
+	t.lg.CaptureExit(output, gasUsed, err)
+}
+func (t *teeLogger) CaptureState(pc uint64, op vm.OpCode, gas, cost uint64, scope *vm.ScopeContext, rData []byte, depth int, err error) {
+	t.tr.CaptureState(pc, op, gas, cost, scope, rData, depth, err)
+	t.lg.CaptureState(pc, op, gas, cost, scope, rData, depth, err)
+}
+func (t *teeLogger) CaptureFault(pc uint64, op vm.OpCode, gas, cost uint64, scope *vm.ScopeContext, depth int, err error) {
+	t.tr.CaptureFault(pc, op, gas, cost, scope, depth, err)
+	t.lg.CaptureFault(pc, op, gas, cost, scope, depth, err)
+}
+func (t *teeLogger) CaptureAspectEnter(jp atypes.JoinPointRunType, from, to, aspect common.Address, input []byte, gas uint64, value *big.Int, req proto.Message) {
+	t.lines = append(t.lines, fmt.Sprintf("E aenter %x %s %s %s %s %s %s", int(jp), hexAddr(from), hexAddr(to), hexAddr(aspect), hexBytes(input), hexU64(gas), optBig(value)))
+	t.al.CaptureAspectEnter(jp, from, to, aspect, input, gas, value, req)
+}
+func (t *teeLogger) CaptureAspectExit(jp atypes.JoinPointRunType, res *atypes.AspectExecutionResult) {
+	t.lines = append(t.lines, fmt.Sprintf("E aexit %x %s %s %s", int(jp), hexU64(res.Gas), hexBytes(res.Ret), terr(res.Err)))
+	t.al.CaptureAspectExit(jp, res)
+}
+
 // ---------------------------------------------------------------- one case
 
 func runFrameCase(r *Rng, em *Emitter, label string, tags string) {
@@ -888,7 +955,23 @@ func runFrameCase(r *Rng, em *Emitter, label string, tags string) {
 		t.idx = lg.evm.Tracer().CurrentCallIndex()
 		lg.transfers = append(lg.transfers, t)
 	}
-	env := newEnv(fork, lg, nil, sdb, transfer)
+	// a real call tracer rides along (C19/C18 on real streams: the Aspect callbacks come from aspect-core, not from a generator)
+	ctFlat, ctOnlyTop, ctIncl, ctParity := r.Chance(40), false, false, false
+	ctName, ctCfg := "callTracer", `{}`
+	if ctFlat {
+		ctIncl, ctParity = r.Bool(), r.Chance(40)
+		ctName, ctCfg = "flatCallTracer", fmt.Sprintf(`{"includePrecompiles":%v,"convertParityErrors":%v}`, ctIncl, ctParity)
+	} else if r.Chance(20) {
+		ctOnlyTop = true
+		ctCfg = `{"onlyTopCall":true}`
+	}
+	realTr, terrNew := tracers.DefaultDirectory.New(ctName, &tracers.Context{}, json.RawMessage(ctCfg))
+	if terrNew != nil {
+		panic(terrNew)
+	}
+	realAl, _ := realTr.(atypes.AspectLogger)
+	tee := &teeLogger{lg: lg, tr: realTr, al: realAl}
+	env := newEnv(fork, tee, nil, sdb, transfer)
 	lg.evm = env.evm
 	fi := forkIndex(fork)
 	lg.rules = map[string]string{"e158": b01(fi >= 3), "hs": b01(fi >= 1), "ber": b01(fi >= 8), "lon": b01(fi >= 9)}
@@ -970,6 +1053,46 @@ func runFrameCase(r *Rng, em *Emitter, label string, tags string) {
 		em.Op("*", "Q depth", "harness-desync:"+strings.ReplaceAll(lg.desync, " ", "_"))
 		return
 	}
+	// the real call tracer's result against the call-tracer machine run on the same callbacks (a tracer instance serves one
+	// transaction: cases with a second top-level invocation on the same EVM are left out)
+	if rounds == 1 {
+		em.Op("-", fmt.Sprintf("EC %s %s %s %s", b01(ctFlat), b01(ctOnlyTop), b01(ctIncl), b01(ctParity)), "ok")
+		for _, ln := range tee.lines {
+			em.Op("-", ln, "ok")
+		}
+	}
+	func() {
+		if rounds != 1 {
+			return
+		}
+		impl, inv := "", "ok"
+		defer func() {
+			if x := recover(); x != nil {
+				impl = "panic"
+			}
+			if ctFlat {
+				em.Op("C19,C03", "Q ctflat", impl)
+				em.Op("C19", "S ctflatinv", inv)
+			} else {
+				em.Op("C19,C03,C18", "Q ctnested", impl)
+			}
+		}()
+		raw, err := realTr.GetResult()
+		if err != nil {
+			impl = "err:" + strings.ReplaceAll(err.Error(), " ", "_")
+			return
+		}
+		if ctFlat {
+			var l []interface{}
+			json.Unmarshal(raw, &l)
+			impl, inv = canonFlat(l)
+		} else {
+			var m map[string]interface{}
+			json.Unmarshal(raw, &m)
+			impl = canonNested(m)
+		}
+	}()
+	em.Count("frame:realtracer:" + ctName)
 	it := &implTracer{t: env.evm.Tracer()}
 	em.Op("C07,C08,C04,C06,C03", "Q tree", it.qTree())
 	em.Op("C18,C06,C04,C03", "Q events", listStr(lg.events))
@@ -1382,6 +1505,17 @@ func (l *frameLogger) specNodes() string {
 			return fmt.Sprintf("node_%d:data_recorded_%s_but_call_was_made_with_%s", fr.nodeIdx, hexBytes(c.Data), hexBytes(fr.att.input))
 		case int(c.ParentIndex()) != fr.parentNode:
 			return fmt.Sprintf("node_%d:parent_%d_expected_%d", fr.nodeIdx, c.ParentIndex(), fr.parentNode)
+		}
+		// leftover gas exactly as handed back to the caller - read off the ISSUING frame's own gas around the instruction, for
+		// every attempt made by an instruction, accepted or refused up front
+		if fr.att.netKnown {
+			got := int64(c.RemainingGas)
+			if isCreate && c.Gas != nil {
+				got -= int64(c.Gas.Uint64()) // CREATE takes the supplied gas out of the frame inside the instruction
+			}
+			if got != fr.att.netGas {
+				return fmt.Sprintf("node_%d:leftover_gas_recorded_%x_but_the_issuing_frame_got_%d_net_(%s)", fr.nodeIdx, c.RemainingGas, fr.att.netGas, ferr(c.Err))
+			}
 		}
 		if fr.accepted {
 			switch {
